@@ -717,3 +717,10 @@ func readMatches(kind, r string, n int, want []byte) bool {
 	}
 	return false
 }
+
+// rule addenda (rounds 9-12): what the evidence says about the coverage of a run
+func init() {
+	if p := registry["C15"]; p != nil {
+		p.Rule += " Method variants of the byte operations: WriteString (incl. multi-byte text), Write (io.Writer), WriteInt8..64, String(n), Int8..64, Read into a slice of a larger scratch buffer."
+	}
+}
